@@ -78,6 +78,8 @@ class Ctx:
         return self._cprog
 
     def rule(self, rid, desc, floor=1):
+        if rid in self.rule_desc and self.rule_desc[rid] != desc:
+            raise RuntimeError("rule id %s declared twice with different descriptions" % rid)
         self.rule_desc[rid] = desc
         self.rule_floor[rid] = floor
 
